@@ -29,7 +29,7 @@ ASSUMPTIONS = ["as C01", "power sums 1..N determine the characteristic polynomia
 REQUIRED_CLASSES = {"all": ["blocks=3", "params=2", "repr=sympy", "selection=full", "rs-checked"]}
 
 
-FORMS = ("indices", "indices", "indices", "blocks", "blocks", "eigvecs")
+FORMS = ("indices", "indices", "indices", "blocks", "blocks", "eigvecs", "symmatrix")
 
 
 def strategy(tier):
